@@ -95,7 +95,8 @@ Collision(fs, args, strips) ==
 ReachableFiles(fs, args) == {e.file : e \in Entries(fs, args, {})}
 
 \* ---- running a step: materials before the command, products after it
-Cmds == {"none", "create_g", "delete_f", "modify_f", "create_in_d"}
+\* "rewrite_f": new content of the SAME LENGTH, the file's modification time put back to what it was
+Cmds == {"none", "create_g", "delete_f", "modify_f", "rewrite_f", "create_in_d"}
 ApplyCmd(x, c) ==
   CASE c = "create_g"    -> [x EXCEPT !.g = TRUE]
     [] c = "delete_f"    -> [x EXCEPT !.f = FALSE]
@@ -103,7 +104,8 @@ ApplyCmd(x, c) ==
     [] OTHER             -> x
 \* a modified file has new content: it is another file ("F2") under the same path
 AfterEntries(x, c, as, st) ==
-  {[key |-> e.key, file |-> IF c = "modify_f" /\ e.file = "F" THEN "F2" ELSE e.file] : e \in Keyed(ApplyCmd(x, c), as, st)}
+  {[key |-> e.key, file |-> IF c = "modify_f" /\ e.file = "F" THEN "F2"
+                            ELSE IF c = "rewrite_f" /\ e.file = "F" THEN "F3" ELSE e.file] : e \in Keyed(ApplyCmd(x, c), as, st)}
 
 -----------------------------------------------------------------------------
 VARIABLES fs, args, strips, pc, ai, recorded, res
